@@ -111,7 +111,7 @@ class NativeTemplate(Template):
 
         try:
             return self.environment_class.concat(  # type: ignore
-                self.root_render_func(ctx)
+                list(self.root_render_func(ctx))
             )
         except Exception:
             return self.environment.handle_exception()
